@@ -87,6 +87,26 @@ pub fn gen_value(u: &mut Unstructured, kind: Kind) -> arbitrary::Result<(Inst, i
         let sub = *u.choose(&[0i64, 0, 0, 1, 500_000_000, 999_999_999, 123_456_789, 100_000_000, 9_000_000])?;
         v.ns = (local_tod - off as i64).rem_euclid(86_400) * 1_000_000_000 + sub;
     }
+    // range ends: the outermost days, with the time of day chosen so that both the instant and
+    // its local reading stay representable
+    if u.ratio(1, 12)? {
+        let top = u.ratio(1, 2)?;
+        v.day = if top { cal::MAX_DAY - u.int_in_range(0..=1i64)? } else { cal::MIN_DAY + u.int_in_range(0..=1i64)? };
+        if kind == Kind::DateTime && off != 0 {
+            let o = off as i64 * 1_000_000_000;
+            let room = 86_400_000_000_000 - o.abs();
+            let t = u.int_in_range(0..=room - 1)?;
+            // top day: instant + max(off,0) must stay inside the day; bottom day: instant + min(off,0) >= 0
+            v.ns = if (top && off > 0) || (!top && off > 0) { t } else { t + o.abs() };
+            if top && off > 0 {
+                v.ns = t;
+            } else if !top && off < 0 {
+                v.ns = t + o.abs();
+            } else {
+                v.ns = u.int_in_range(0..=86_399_999_999_999i64)?;
+            }
+        }
+    }
     if kind == Kind::Time {
         v.day = 0;
     }
@@ -114,7 +134,15 @@ pub fn format_value(kind: Kind, v: Inst, off: i32, pattern: &str) -> Result<Stri
 }
 
 pub fn case_ok(c: &Case) -> bool {
-    c.v.valid() && c.off.abs() <= 86_399 && c.v.day >= cal::MIN_DAY + 2 && c.v.day <= cal::MAX_DAY - 2 && c.toks.len() <= 64 && (c.kind != Kind::Date || c.off == 0)
+    if !(c.v.valid() && c.off.abs() <= 86_399 && c.toks.len() <= 64 && (c.kind != Kind::Date || c.off == 0)) {
+        return false;
+    }
+    // the value and (for DateTime) its local reading must both be representable
+    if c.kind == Kind::DateTime {
+        let local = c.v.i() + c.off as i128 * tl::NS;
+        return tl::representable(local);
+    }
+    true
 }
 
 pub struct Format;
@@ -152,6 +180,9 @@ impl Prop for Format {
             || (f.month == 1 && f.dom <= 7)
             || c.off % 60 != 0
             || f.subsec != 0;
+        if c.v.day <= cal::MIN_DAY + 1 || c.v.day >= cal::MAX_DAY - 1 {
+            cx.nt("value_on_an_outermost_day");
+        }
         if nfields >= 2 && distinguished {
             cx.nt("multi_field_distinguished_value");
         }
